@@ -6,6 +6,8 @@
 #include "common.hpp"
 
 #include <fstream>
+#include <iostream>
+#include <sstream>
 #include <locale>
 
 #include "libphysica/Linear_Algebra.hpp"
@@ -398,6 +400,39 @@ std::string handle(const std::string& op, Args& a)
 		if(r != "ok returned")
 			return r;
 		return "ok " + enhex(diag);
+	}
+	if(op == "c20.printbox")
+	{
+		std::string str = unhex(a.tok());
+		unsigned int tabs = (unsigned int) a.u64();
+		int rank = (int) a.i64();
+		std::string bc = unhex(a.tok()), tc = unhex(a.tok());
+		a.end();
+		// what Print_Box writes to std::cout (an unknown colour also writes a warning to std::cerr: not compared here)
+		return run_forked([&](Out& o) {
+			std::ostringstream cap;
+			std::streambuf* old = std::cout.rdbuf(cap.rdbuf());
+			Print_Box(str, tabs, rank, bc, tc);
+			std::cout.flush();
+			std::cout.rdbuf(old);
+			o << enhex(cap.str());
+		});
+	}
+	if(op == "c20.progbar")
+	{
+		double progress = a.dbl();
+		unsigned int rank = (unsigned int) a.u64(), len = (unsigned int) a.u64();
+		double time = a.dbl();
+		std::string col = unhex(a.tok());
+		a.end();
+		return run_forked([&](Out& o) {
+			std::ostringstream cap;
+			std::streambuf* old = std::cout.rdbuf(cap.rdbuf());
+			Print_Progress_Bar(progress, rank, len, time, col);
+			std::cout.flush();
+			std::cout.rdbuf(old);
+			o << enhex(cap.str());
+		});
 	}
 	if(op == "c20.fexists")
 	{
